@@ -8,7 +8,7 @@
 ID=$1; V=$2; shift 2; EXTRA="$@"
 R=${SEEDROUND:-}
 SRC=/tmp/seed$R-$ID-out/$V
-DST=$DST$R
+DST=/verif/seeded/$ID-$V$R
 [ -f $SRC/patch.diff ] || { echo "no $SRC/patch.diff"; exit 3; }
 export GOFLAGS=-mod=mod GOPROXY=off
 WT=/tmp/wt-seedrun-$ID-$V-$$
